@@ -17,6 +17,7 @@ BLOCK_KEYS = [
 ]
 RE_MISSING = re.compile(r"WARNING: The performance data for (\d+) instructions is missing\.")
 RE_NUM = re.compile(r"^-?\d+(\.\d+)?$")
+RE_CPLCD = re.compile(r"^\|\s*([^\s|]*)\s*\|\s*([^\s|]*)\s*\|")
 
 
 class LayoutError(Exception):
@@ -67,23 +68,30 @@ def _parse_port_header(line):
     return cols, first
 
 
-def _walk_ports(row, start, cols, first_sep, seps):
-    """Read the port cells of a row.  `start` is the index of the leading separator char."""
-    pos = start
-    if row[pos:pos + 1] != first_sep:
-        raise LayoutError("expected %r at %d in %r" % (first_sep, pos, row))
-    pos += 1
-    cells = []
-    for i, (name, cstart, width, _) in enumerate(cols):
+def _walk_ports(row, start, cols, first_sep, seps, accept=None):
+    """Read the port cells of a row.  `start` is the index of the leading separator char.
+    A value normally fills its column exactly and is followed by blank, separator, blank.  Two
+    things make a value wider than its column: an integer part that leaves no room for decimals
+    (printed as '{:.1f}' and followed by the separator without a blank), and rounding up to the
+    next power of ten (9.9995 -> '10.000', followed by blank + separator as usual).  Both shift
+    the rest of the row; for a wide value both continuations are tried and the one under which
+    the rest of the row fits the header-defined layout (and `accept(row, pos)`) is taken."""
+    if row[start:start + 1] != first_sep:
+        raise LayoutError("expected %r at %d in %r" % (first_sep, start, row))
+
+    def walk(i, pos):
+        if i == len(cols):
+            if accept is not None and not accept(row, pos):
+                raise LayoutError("rest of the row does not fit after the port cells in %r" % row)
+            return [], pos
+        name, _, width, _ = cols[i]
         inner = width - 2
-        # one blank, the value (nominally `inner` wide), one blank, the separator
         if row[pos:pos + 1] != " ":
             raise LayoutError("expected blank before cell %s at %d in %r" % (name, pos, row))
         pos += 1
         field = row[pos:pos + inner]
-        wide = False
         if field.strip() == "":
-            cells.append(None)
+            cell, forms = None, [True]
             pos += inner
         else:
             if field[0] == " ":
@@ -91,19 +99,28 @@ def _walk_ports(row, start, cols, first_sep, seps):
             end = pos
             while end < len(row) and row[end] not in " |":
                 end += 1
-            cells.append(row[pos:end])
-            # a value whose integer part leaves no room for decimals is printed as '{:.1f}' directly
-            # followed by the separator (no blank in between); all others fill the column exactly
-            wide = end - pos > inner
+            cell = row[pos:end]
+            if end - pos < inner:
+                raise LayoutError("cell %s narrower than its column in %r" % (name, row))
+            forms = [True] if end - pos == inner else [True, False]
             pos = end
-        if not wide:
-            if row[pos:pos + 1] != " ":
-                raise LayoutError("expected blank after cell %s at %d in %r" % (name, pos, row))
-            pos += 1
-        if row[pos:pos + 1] != seps[i]:
-            raise LayoutError("expected separator %r after cell %s at %d in %r" % (seps[i], name, pos, row))
-        pos += 1
-    return cells, pos
+        err = None
+        for blank_first in forms:
+            q = pos
+            try:
+                if blank_first:
+                    if row[q:q + 1] != " ":
+                        raise LayoutError("expected blank after cell %s at %d in %r" % (name, q, row))
+                    q += 1
+                if row[q:q + 1] != seps[i]:
+                    raise LayoutError("expected separator %r after cell %s at %d in %r" % (seps[i], name, q, row))
+                rest, endpos = walk(i + 1, q + 1)
+                return [cell] + rest, endpos
+            except LayoutError as e:
+                err = err or e
+        raise err
+
+    return walk(0, start + 1)
 
 
 def parse_report(text):
@@ -160,8 +177,9 @@ def parse_report(text):
                     k += 1
                     continue
                 try:
-                    cells, pos = _walk_ports(row, m.end(), cols, "|", row_seps)
-                    m2 = re.match(r"^\|\s*([^\s|]*)\s*\|\s*([^\s|]*)\s*\|", row[pos:])
+                    cells, pos = _walk_ports(row, m.end(), cols, "|", row_seps,
+                                             accept=lambda r, p: RE_CPLCD.match(r[p:]) is not None)
+                    m2 = RE_CPLCD.match(row[pos:])
                     if not m2:
                         raise LayoutError("CP/LCD cells not found in %r" % row)
                     rem = row[pos + m2.end():]
